@@ -32,6 +32,10 @@ def mkprof(breakdown):
                        breakdown=breakdown, flags=["-b"] if breakdown else None)
 
 
+PROF_T = gen.Profile(kinds=["task"] * 7 + ["region", "state", "idle"],
+                     models=lambda draw: [draw(st.sampled_from(["V", "6"]))] + draw(st.lists(st.sampled_from(["M", "K", "P"]), unique=True, max_size=1)),
+                     max_looms=2, max_procs=3, max_threads=2, max_cpus=3, steps=(15, 90), modes=("legal",), lint=None,
+                     ranks=True)
 PROF_A = mkprof(False)
 PROF_B = mkprof(True)
 PROF_B.no_bare_pause = False
@@ -86,5 +90,6 @@ def run(case, ctx):
 def parts(tier):
     return [
         Part("accepted-traces", run, strategy=lambda ctx: gen.history(PROF_A), budget={"quick": 3500, "thorough": 45000}),
+        Part("accepted-traces-tasks", run, strategy=lambda ctx: gen.history(PROF_T), budget={"quick": 2500, "thorough": 30000}),
         Part("accepted-traces-breakdown", run, strategy=lambda ctx: gen.history(PROF_B), budget={"quick": 1500, "thorough": 20000}),
     ]
